@@ -59,6 +59,16 @@ theorem alias_tracks_chain (w : World) (k : Nat) (n : String) (v : Rat)
       simp only [*] at changed ⊢
       exact (setValue_step w i v ok).1.tracks_chain hl ht p changed
 
+/-- **the clause evaluated on the implementation**: `Alias.tracksOk` — the executable form of the two
+theorems above on the observable views (names, values, links probed through
+`hasParameterListener`), which the driver evaluates on the implementation's answers — holds of
+the model for every `setParameterValue` that returns in a reachable world. -/
+theorem alias_tracks_clause (ops : List Op) (hw : WfRun World.init ops) (k : Nat) (o : Obj)
+    (ho : (run World.init ops).objs k = some o) (n : String) (v : Rat)
+    (ok : (apSetParameterValue (run World.init ops) k n v).err = none) :
+    tracksOk (svOf (run World.init ops) o) (svOf (apSetParameterValue (run World.init ops) k n v).w o) = true :=
+  tracksOk_setv (inv_run ops inv_init hw) ho n v ok
+
 /-- non-vacuity: c follows b follows a, all in sync; `setParameterValue("a", 7)` gives 7, 7, 7 -/
 example :
     let w := run abc [.alias 0 "a" "b", .alias 0 "b" "c", .setv 0 "a" 5]
